@@ -1267,5 +1267,24 @@ func TestVerifBoundedC02(t *testing.T) {
 			fmt.Sprintf("%d entry points x %d formats x 9 error-carrying values", len(entries), len(fs)))
 		total += r.cases
 	}
+	// law 6: padding next to a line feed. The two instantiations have the same emptiness and the same line-break
+	// positions but different lengths; the pad is computed from the length of the whole value
+	{
+		r := c02NewRunner(t, 64)
+		pairs := [][2]string{{"\nab", "\nabcdef"}, {"\n\nab", "\n\nabcdef"}, {"a\nb", "a\nbcdef"}, {"a\n\nb", "a\n\nbcdef"}, {"\n", "\n"}}
+		for _, f := range []string{"%5s", "%05s", "%-5s", "%5v", "%5q", "%.3s", "%5.3s", "x=%5s;"} {
+			for _, pr := range pairs {
+				if r.stop() {
+					break
+				}
+				f, pr := f, pr
+				outA, outB := string(Sprintf(f, pr[0])), string(Sprintf(f, pr[1]))
+				r.check(outA, outB, func(k int) string { return fmt.Sprintf("Sprintf(%q, %q)", f, pr[k]) })
+			}
+		}
+		r.bounded("width, precision and padding around a line feed at the same position: two-run identity after Redact()", "the two values differ in length",
+			"8 directives with width/precision x 5 pairs of strings with their line feeds at the same offsets")
+		total += r.cases
+	}
 	t.Logf("C02 bounded: %d two-run cases in total", total)
 }
